@@ -1,5 +1,6 @@
 import CM.Lib.Wire
 import CM.Model.FileLockSim
+import CM.Generated.Fn
 /-!
 Driver handler for C08.
 
@@ -89,7 +90,12 @@ def handle (args impl : List String) : String :=
       let twoH := c.factor * c.H
       let tag := (match f0 with
           | none => "n" | some .empty => "e" | some .garbage => "g"
-          | some (.stamp cr u) => if stale c start cr u then "s" else "f") ++
+          | some (.stamp cr u) =>
+            -- the TRANSLATED `fileLockIsStale` (CM/Generated/Fn) beside the model's `stale`
+            if c == codeParams && CM.Gen.Fn.translated.contains "fileLockIsStale" &&
+                CM.Gen.Fn.fileLockIsStale (Int.ofNat start) ⟨Int.ofNat cr, Int.ofNat u⟩ != stale c start cr u
+            then "translated-definition-differs-from-model"
+            else if stale c start cr u then "s" else "f") ++
         toString as.length ++
         (if as.any (fun a => !a.horizon) then "c" else "") ++
         (if as.any (fun a => a.hold > twoH) then "L" else "") ++
